@@ -67,6 +67,9 @@ ASSUMPTIONS = [
     "the cache of the Lean model is the unbounded timed map; histories in which a small LRUCache (capacity 1-3) had to evict "
     "are judged by the oracle's own reference LRU (served from cache within TTL, asked again after expiry, contents after "
     "every resolution, no foreign exception) and by the sync/async comparison, not by the model (LRU internals are C17)",
+    "the nameserver classes' plumbing (what Do53/DoT/DoH/DoQ query/async_query hand to dns.query / dns.asyncquery) is checked by "
+    "the oracle only: keyword sets sync vs async and vs a table written from the documented behaviour, and for Do53 over fakes of "
+    "dns.query.udp/tcp that obey those keywords; what dns.query does with a socket is C18",
     "composite entry points: resolve_name is modelled and proved; canonical_name, resolve_address (sync + asyncio) and the "
     "synchronous zone_for_name are driven and checked by the oracle only (each inner resolve as a resolution of its own, the "
     "shared lifetime as a budget); try_ddr, resolve_at/make_resolver_at and the module-level wrappers around the default "
@@ -383,6 +386,65 @@ async def _do53_async_query(self, request, timeout, source, source_port, max_siz
     return w.finish(request, spec, tag, ev)
 
 
+class _WireNS:
+    """what the fake dns.query / dns.asyncquery functions know of the server they were pointed at"""
+
+    def __init__(self, where, port):
+        self.address, self.port = where, port
+
+    def answer_port(self):
+        return self.port
+
+    def __str__(self):
+        return f"Do53:{self.address}@{self.port}"
+
+
+def _wire_junk(spec, ev, tcp, kw):
+    """the datagrams that arrive before the scripted reply (UDP only): undecodable garbage, a reply with a foreign id, a
+    datagram from a foreign source.  A transport asked to ignore them reads on; otherwise it raises what dns.query raises."""
+    if tcp:
+        return
+    for j in spec.get("pre", []):
+        if j in ("garbage", "badid") and not kw.get("ignore_errors", False):
+            ev["tag"], ev["junk_leak"] = "form", j
+            raise (dns.message.ShortHeader() if j == "garbage" else dns.query.BadResponse())
+        if j == "badsrc" and not kw.get("ignore_unexpected", False):
+            ev["tag"], ev["junk_leak"] = "other", j
+            raise dns.query.UnexpectedSource("reply from an unexpected source")
+
+
+def _wire_finish(w, q, spec, tag, ev, tcp, kw):
+    if tag == "trunc" and not tcp and not kw.get("raise_on_truncation", False):
+        ev["tag"], ev["junk_leak"] = "rc0", "truncation-not-raised"
+        m = dns.message.make_response(q)
+        m.flags |= dns.flags.TC
+        return m
+    return w.finish(q, spec, tag, ev)
+
+
+def _wire_sync(tcp):
+    def fake(q, where, timeout=None, port=53, source=None, source_port=0, **kw):
+        w = CURRENT_WORLD
+        spec, tag, dur, ev = w.begin(_WireNS(where, port), q, timeout, tcp, source, source_port)
+        ev["kw"] = dict(kw)
+        _wire_junk(spec, ev, tcp, kw)
+        w.clock.advance(dur)
+        return _wire_finish(w, q, spec, tag, ev, tcp, kw)
+    return fake
+
+
+def _wire_async(tcp):
+    async def fake(q, where, timeout=None, port=53, source=None, source_port=0, **kw):
+        w = CURRENT_WORLD
+        spec, tag, dur, ev = w.begin(_WireNS(where, port), q, timeout, tcp, source, source_port)
+        ev["kw"] = {k: v for k, v in kw.items() if k != "backend"}
+        _wire_junk(spec, ev, tcp, kw)
+        if dur > 0:
+            await asyncio.sleep(dur / 1000.0)
+        return _wire_finish(w, q, spec, tag, ev, tcp, kw)
+    return fake
+
+
 class ScriptedNS(dns.nameserver.Nameserver):
     def __init__(self, sid, always_max, world):
         super().__init__()
@@ -458,7 +520,7 @@ def configure(res, cfg, world):
     world.nservers = max(1, len(cfg["servers"]))
     objs = {}
     servers = []
-    if cfg.get("route") == "str":
+    if cfg.get("route") in ("str", "wire"):
         # nameservers given as address strings: `_enrich_nameservers` makes Do53Nameserver objects (anew for every
         # candidate) whose query methods are patched to the scripted world; ports come from nameserver_ports / port
         servers = [sid_addr(sid) for sid, _ in cfg["servers"]]
@@ -576,15 +638,22 @@ def run_impl(case, mode, gen=None):
     global CURRENT_WORLD
     CURRENT_WORLD = world
     saved_do53 = (dns.nameserver.Do53Nameserver.query, dns.nameserver.Do53Nameserver.async_query)
+    saved_wire = (dns.query.udp, dns.query.tcp, dns.asyncquery.udp, dns.asyncquery.tcp)
     if cfg.get("route") == "str":
         dns.nameserver.Do53Nameserver.query = _do53_query
         dns.nameserver.Do53Nameserver.async_query = _do53_async_query
+    if cfg.get("route") == "wire":
+        # one layer further down: the real Do53Nameserver.query / async_query run and hand their keyword arguments to
+        # fakes of dns.query.udp/tcp and dns.asyncquery.udp/tcp that behave as those arguments tell them to
+        dns.query.udp, dns.query.tcp = _wire_sync(False), _wire_sync(True)
+        dns.asyncquery.udp, dns.asyncquery.tcp = _wire_async(False), _wire_async(True)
     try:
         if case["kind"] == "rname":
             return _run_name(case, mode, clock, world, loop if mode == "async" else None)
         return _run_impl(case, mode, clock, world, loop if mode == "async" else None)
     finally:
         dns.nameserver.Do53Nameserver.query, dns.nameserver.Do53Nameserver.async_query = saved_do53
+        dns.query.udp, dns.query.tcp, dns.asyncquery.udp, dns.asyncquery.tcp = saved_wire
         CURRENT_WORLD = None
 
 
@@ -594,7 +663,8 @@ def aux_of(o):
     r = o["result"]
     errs = [(e[0], bool(e[1]), e[2], type(e[3]).__name__ if not isinstance(e[3], str) else "rcode:" + e[3], e[4] is not None)
             for e in r.get("errors", [])]
-    return json.dumps([[(e.get("src"), e.get("sport"), e.get("port"), e.get("nsstr"), e.get("rflags"), e.get("redns")) for e in o["events"] if e["ev"] == "q"],
+    return json.dumps([[(e.get("src"), e.get("sport"), e.get("port"), e.get("nsstr"), e.get("rflags"), e.get("redns"), sorted((e.get("kw") or {}).items()))
+                        for e in o["events"] if e["ev"] == "q"],
                        r.get("port"), errs, len(r.get("msgs", [])), r.get("msg") is not None], default=str)
 
 
@@ -1026,7 +1096,18 @@ def oracle(ctx, case, obs, rep):
 
         # ---- every query carries the caller's source address/port and goes to the port configured for that server
         for e in queries:
-            want_str = f"Do53:{sid_addr(e['sid'])}@{ns_port(e['sid'])}" if cfg.get("route") == "str" else f"scripted:{e['sid']}"
+            want_str = f"Do53:{sid_addr(e['sid'])}@{ns_port(e['sid'])}" if cfg.get("route") in ("str", "wire") else f"scripted:{e['sid']}"
+            if e.get("junk_leak"):
+                fail("transport/junk-datagram-not-ignored", f"{where}: server {e['sid']} ({'TCP' if e['tcp'] else 'UDP'}): '{e['junk_leak']}' "
+                     f"reached the resolver because the nameserver object called the transport with {e.get('kw')}")
+                break
+            if cfg.get("route") == "wire":
+                want_kw = ({"one_rr_per_rrset": False, "ignore_trailing": False} if e["tcp"] else
+                           {"raise_on_truncation": True, "one_rr_per_rrset": False, "ignore_trailing": False, "ignore_errors": True,
+                            "ignore_unexpected": True})
+                if e.get("kw") != want_kw:
+                    fail("transport/keywords", f"{where}: Do53 {'tcp' if e['tcp'] else 'udp'} called with {e.get('kw')}, documented {want_kw}")
+                    break
             if e.get("src") != rq.get("src") or (e.get("sport") or 0) != (rq.get("sport") or 0):
                 fail("transport/source", f"{where}: query sent with source={e.get('src')!r} port={e.get('sport')!r}, caller gave {rq.get('src')!r}/{rq.get('sport', 0)!r}")
                 break
@@ -1504,6 +1585,80 @@ def eval_case(ctx: Ctx, c: dict, gen=None):
                 ctx.fail("C16/async/transport-or-payload-differs", f"resolve_name lookups: sync {str(a1)[:300]}  async {str(a2)[:300]}", rep)
         ctx.count("rname.queries", sum(1 for e in obs[0]["events"] if e["ev"] == "q"))
         return True
+    if k == "plumb":
+        # the layer between the resolver and dns.query: what each Nameserver class hands to its transport function, and that
+        # its synchronous and asynchronous methods hand over the same
+        rec = {}
+        names = ("udp", "tcp", "tls", "https", "quic")
+        saved = {(m, n): getattr(m, n) for m in (dns.query, dns.asyncquery) for n in names}
+        req = dns.message.make_query("plumb.example.", "A")
+        canned = dns.message.make_response(req)
+
+        def mk_sync(n):
+            def f(*a, **kw):
+                rec.setdefault("sync", []).append((n, a, kw))
+                return canned
+            return f
+
+        def mk_async(n):
+            async def f(*a, **kw):
+                rec.setdefault("async", []).append((n, a, kw))
+                return canned
+            return f
+        p_ = c["p"]
+        make = {"do53": lambda: dns.nameserver.Do53Nameserver("10.0.0.9", p_["port"]),
+                "dot": lambda: dns.nameserver.DoTNameserver("10.0.0.9", p_["port"], p_["host"], p_["verify"]),
+                "doh": lambda: dns.nameserver.DoHNameserver("https://dns.example/dns-query", p_["boot"], p_["verify"], bool(p_["get"])),
+                "doq": lambda: dns.nameserver.DoQNameserver("10.0.0.9", p_["port"], p_["verify"], p_["host"])}[c["cls"]]
+        t = seconds(c["timeout"])
+        args = (req, t, c["src"], c["sport"], bool(c["max"]))
+        try:
+            for n in names:
+                setattr(dns.query, n, mk_sync(n))
+                setattr(dns.asyncquery, n, mk_async(n))
+            ns = make()
+            backend = dns.asyncbackend.get_backend("asyncio")
+            r1 = ns.query(*args, one_rr_per_rrset=bool(c["orr"]), ignore_trailing=bool(c["it"]))
+            r2 = _rebased(get_loop()).run_until_complete(ns.async_query(*args, backend, one_rr_per_rrset=bool(c["orr"]), ignore_trailing=bool(c["it"])))
+        except BaseException as e:
+            if _harness_signal(e):
+                raise
+            ctx.fail(f"C16/nameserver/{c['cls']}/raises:" + type(e).__name__, f"{c['cls']} query/async_query raised {e!r} over recording transports", rep)
+            return True
+        finally:
+            for (m, n), f in saved.items():
+                setattr(m, n, f)
+        sy, asy = rec.get("sync", []), rec.get("async", [])
+        ctx.count(f"plumb.{c['cls']}.{'tcp' if c['max'] else 'udp'}")
+        if len(sy) != 1 or len(asy) != 1 or r1 is not canned or r2 is not canned:
+            ctx.fail(f"C16/nameserver/{c['cls']}/calls", f"transport calls: sync {[x[0] for x in sy]}, async {[x[0] for x in asy]}", rep)
+            return True
+        (n1, a1, k1), (n2, a2, k2) = sy[0], asy[0]
+        k2 = {k_: v for k_, v in k2.items() if k_ != "backend"}
+        if n1 != n2 or list(a1[1:]) != list(a2[1:]) or a1[0] is not req or a2[0] is not req or k1 != k2:
+            diff = {k_: (k1.get(k_, "<absent>"), k2.get(k_, "<absent>")) for k_ in set(k1) | set(k2) if k1.get(k_, "<absent>") != k2.get(k_, "<absent>")}
+            ctx.fail(f"C16/nameserver/{c['cls']}/sync-async-keywords", f"{c['cls']} ({'max_size' if c['max'] else 'udp-size'}): sync {n1}{a1[1:]} vs async {n2}{a2[1:]}; keywords that differ (sync, async): {diff}", rep)
+            return True
+        common = {"timeout": t, "one_rr_per_rrset": bool(c["orr"]), "ignore_trailing": bool(c["it"])}
+        if c["cls"] == "do53":
+            want_fn = "tcp" if c["max"] else "udp"
+            want = dict(common, port=p_["port"], source=c["src"], source_port=c["sport"])
+            if not c["max"]:
+                want.update(raise_on_truncation=True, ignore_errors=True, ignore_unexpected=True)
+            want_where = "10.0.0.9"
+        elif c["cls"] == "dot":
+            want_fn, want_where = "tls", "10.0.0.9"
+            want = dict(common, port=p_["port"], server_hostname=p_["host"], verify=p_["verify"])
+        elif c["cls"] == "doh":
+            want_fn, want_where = "https", "https://dns.example/dns-query"
+            want = dict(common, source=c["src"], source_port=c["sport"], bootstrap_address=p_["boot"], verify=p_["verify"], post=not p_["get"],
+                        http_version=dns.query.HTTPVersion.DEFAULT)
+        else:
+            want_fn, want_where = "quic", "10.0.0.9"
+            want = dict(common, port=p_["port"], verify=p_["verify"], server_hostname=p_["host"])
+        if n1 != want_fn or list(a1[1:]) != [want_where] or k1 != want:
+            ctx.fail(f"C16/nameserver/{c['cls']}/keywords", f"{c['cls']}: dns.query.{n1}{a1[1:]} called with {k1}; documented dns.query.{want_fn}('{want_where}') with {want}", rep)
+        return True
     if k == "timeout":
         # `_compute_timeout` on its own, on a clock that may also have run backwards since `start`
         clock = VClock(c["now"])
@@ -1652,9 +1807,10 @@ def gen_cfg(rng):
         cfg["timeout"] = 0  # falsy option value
     if rng.chance(1, 40):
         cfg["lifetime"] = 0
-    if rng.chance(1, 6):
-        # object route: nameservers given as address strings (enriched to Do53Nameserver for every candidate)
-        cfg["route"] = "str"
+    if rng.chance(1, 4):
+        # object route: nameservers given as address strings (enriched to Do53Nameserver for every candidate); "wire" runs the
+        # real Do53Nameserver methods over fakes of dns.query / dns.asyncquery
+        cfg["route"] = rng.choice(["str", "wire", "wire"])
         cfg["servers"] = [[i, 0] for i in range(ns)]
     return cfg
 
@@ -1831,7 +1987,11 @@ def gen_run(ctx, rng):
         q = request.question[0]
         if abort_at is not None and world.pos == abort_at:
             return {"k": "x", "e": "abort", "v": 0, "d": rng.choice([0, 1, 5])}
-        return gen_outcome(rng, profile, cfg, list(q.name.labels), int(q.rdclass), int(q.rdtype), timeout_ms)
+        st = gen_outcome(rng, profile, cfg, list(q.name.labels), int(q.rdclass), int(q.rdtype), timeout_ms)
+        if cfg.get("route") == "wire" and rng.chance(1, 2):
+            # junk datagrams before the reply: the transport is told to ignore them, the outcome is the scripted one
+            st["pre"] = [rng.choice(["garbage", "badid", "badsrc"]) for _ in range(rng.range(1, 3))]
+        return st
 
     return case, gen
 
@@ -1955,6 +2115,13 @@ def gen_entry(ctx, rng):
     return c, gen
 
 
+def gen_plumb_case(rng):
+    return {"kind": "plumb", "cls": rng.choice(["do53", "do53", "dot", "doh", "doq"]), "max": rng.below(2), "timeout": rng.choice(TIMEOUTS + [0, 1]),
+            "src": rng.choice([None, "192.0.2.7", "2001:db8::7"]), "sport": rng.choice([0, 1, 5353, 65535]), "orr": rng.below(2), "it": rng.below(2),
+            "p": {"port": rng.choice([53, 853, 5300, 0, 65535]), "host": rng.choice([None, "dns.example"]), "verify": rng.choice([True, False, "/ca.pem"]),
+                  "boot": rng.choice([None, "10.0.0.9"]), "get": rng.below(2)}}
+
+
 def gen_timeout_case(rng):
     life_res = rng.choice(LIFETIMES + [0])
     life_arg = rng.choice([None, None] + LIFETIMES + [0])
@@ -1993,6 +2160,10 @@ def generate(ctx: Ctx, scale: float, rng):
         c, gen = gen_entry(ctx, rng)
         eval_case(ctx, c, gen)
         ctx.case(("entry", case_key(c)), sample=c if len(c["script"]) < 6 else None)
+    for _ in range(n(300)):
+        c = gen_plumb_case(rng)
+        ctx.case(("plumb", case_key(c)), sample=c)
+        eval_case(ctx, c)
     for _ in range(n(600)):
         c = gen_timeout_case(rng)
         ctx.case(("timeout", case_key(c)), sample=c)
